@@ -338,6 +338,19 @@ example : (∀ f ∈ ([⟨⟨.RX, [0], [], .pi8 2⟩, .frac 1 4, none, some 0⟩
     ⟨⟨.TOFFOLI, [2], [0, 1], {}⟩, .none, none, some 2⟩] : List FGate), labGood f = true) ∧
     labGood ⟨⟨.RX, [0], [], .pi8 2⟩, .frac 1 2, none, some 0⟩ = false := by decide
 
+/-- **Every rule labels the angles it writes** (regenerated tables): in every `_gate_*` / `_basis_*` rule a gate
+with an angle carries a label — the text `kπ/m` of exactly its fixed angle, or the label of the rewritten gate. -/
+theorem rules_label_their_angles :
+    (∀ (n : GName) (body : List TGate), gateRule n = .templ body → ∀ (t : TGate) (i : Nat), (t, i) ∈ body.zipIdx →
+      angled.contains t.name = true → (gateLab n).getD i .none ≠ .none) ∧
+    (∀ (y n : GName) (body : List TGate), basisRule y n = some body → ∀ (t : TGate) (i : Nat), (t, i) ∈ body.zipIdx →
+      angled.contains t.name = true → (basisLab y n).getD i .none ≠ .none) :=
+  ⟨fun n body h t i hm ha => rule_labels_complete n body _ (gateLab_ok n body h) t i hm ha,
+   fun y n body h t i hm ha => rule_labels_complete n body _ (basisLab_ok y n body h).1 t i hm ha⟩
+
+example : gateRule .TOFFOLI = .templ gate_TOFFOLI ∧ (gate_TOFFOLI.zipIdx.filter fun p => angled.contains p.1.name).length = 15 := by
+  decide
+
 /-! ## The Pauli-marker defect of the original code -/
 
 /-- With the original assignment (`keepMarkers = false`) `[X 0]` resolved in basis "CNOT" is
